@@ -4,6 +4,7 @@
 //!
 //!   standin <mode> [repo]            search; prints one JSON line: {"kind":"standin",...} or {"kind":"none","cases":N}
 //!   standin --replay '<json>'        re-runs the recorded case; exit 1 = reproduced
+//!   standin phrases <file> [zeros]   spelled numbers from tools/spell.py (C01, C16)
 //! modes: ident, stream (C02)  dec (C05)  wf (C06)  consist (C07)  thr (C09)  iter (C15)  orule (C18)  ncase (C11)
 use std::panic::{catch_unwind, AssertUnwindSafe};
 use text2num::word_to_digit::Replace;
@@ -440,6 +441,46 @@ fn main() {
         }
         println!("case not found");
         std::process::exit(2);
+    }
+    if mode == "phrases" {
+        // standin phrases <file> [zeros]: every line `lang<TAB>phrase<TAB>digits` must validate to exactly its digits, and be rewritten as
+        // one number; with `zeros`, also with one and two leading zero words (C16)
+        let file = args.get(2).cloned().unwrap_or_default();
+        let zeros = args.get(3).map(|x| x == "zeros").unwrap_or(false);
+        let zw = |c: &str| match c { "fr" => "zéro", "es" => "cero", "de" => "null", "nl" => "nul", _ => "zero" };
+        let text = std::fs::read_to_string(&file).unwrap_or_default();
+        let mut n = 0usize;
+        for line in text.lines() {
+            let f: Vec<&str> = line.split('\t').collect();
+            if f.len() != 3 { continue; }
+            let (code, phrase, digits) = (f[0], f[1], f[2]);
+            let l = lang(code);
+            let ks: &[usize] = if zeros && digits != "0" { &[1, 2] } else { &[0] };
+            for &k in ks {
+                n += 1;
+                let p = format!("{}{}", format!("{} ", zw(code)).repeat(k), phrase);
+                let want = format!("{}{}", "0".repeat(k), digits);
+                let got = catch_unwind(AssertUnwindSafe(|| text2digits(&p, &l)));
+                let ok = matches!(&got, Ok(Ok(d)) if *d == want);
+                if !ok {
+                    println!("{}", serde_json::json!({"kind":"call","fn":"text2digits","lang":code,"text":p,"expect":{"equals":format!("Ok({:?})", want)},
+                        "what":format!("text2digits({:?}) = {:?}, expected Ok({:?})", p, got.ok(), want), "cases": n}));
+                    return;
+                }
+                if k == 0 {
+                    let sentence = format!("xyzzy {} xyzzy", phrase);
+                    let r = catch_unwind(AssertUnwindSafe(|| replace_numbers_in_text(&sentence, &l, 0.0))).ok();
+                    let wants = format!("xyzzy {} xyzzy", want);
+                    if r.as_deref() != Some(wants.as_str()) {
+                        println!("{}", serde_json::json!({"kind":"call","fn":"replace","lang":code,"text":sentence,"threshold":0.0,"expect":{"equals":wants},
+                            "what":format!("rewritten as {:?}, expected {:?}", r, wants), "cases": n}));
+                        return;
+                    }
+                }
+            }
+        }
+        println!("{}", serde_json::json!({"kind":"none","cases":n}));
+        return;
     }
     let cs = cases(&mode);
     let n = cs.len();
